@@ -746,8 +746,12 @@ def r7(cx):
     if not poll or not all(body.dominates(poll[0][0], b) for b, t in takes):
         cx.violation(RUN_TRAPS, 'no-poll', 'pending signals are not polled before traps are taken', loc=body.loc(body.d))
     # run_trap: save / restore of the exit status
-    rb = F.main_body(RUN_TRAP)
+    # private same-module helpers inlined: `settle_exit_status(&mut env, &result, previous_exit_status)` holding the restore is
+    # the same save / restore (the helper's `env.exit_status = <parameter>` is a copy of the saved local once inlined)
+    rb = F.inlined(RUN_TRAP)
     cx.fn(rb.fn)
+    for h in getattr(rb, 'inlined_from', None) or []:
+        cx.fn(h)
     du2 = Q.DefUse(rb)
     loops = Q.find_calls(rb, ['*::read_eval_loop'])
     cx.require(len(loops) == 1, 'read_eval_loop not called exactly once in run_trap')
@@ -1227,6 +1231,58 @@ def _runs_trap_of(F, callee, depth=1):
     return bool(done) and Q.must_pass(hb, [0], done) is None
 
 
+_OPTION_BRANCH = ['<core::option::Option<T> as core::ops::try_trait::Try>::branch']
+
+
+def _no_command_none_edges(F, body, du, start, no_command):
+    """Edges that are taken only when an inlined helper said "the taken state has no command": the None edge of a test on an
+    `Option` (or the Break edge after `?` = Option::branch on it) whose value is the return place of an inlined helper, assigned
+    only constant `Some{..}` / `None` aggregates, where EVERY block that assigns `None` is reached only when the action of the
+    taken state is not Action::Command (`fn command_and_origin(&TrapState) -> Option<..>` used as `command_and_origin(state)?`:
+    the merge at the helper's return block hides which arm leads to which edge of the `?`). The path conditions: the value is
+    assigned after `start` on every path to the test, and every link of the copy chain lies on every path from the assignment to
+    the test (no stale copy). A helper that answers None for a command keeps its None block outside no_command: nothing is removed."""
+    out = set()
+    for u in sorted(body.live_blocks()):
+        ec = Q.edge_condition(F, body, du, u)
+        if not ec or ec[0]['k'] != 'discr' or not Q.is_plain(ec[0]['pl']):
+            continue
+        edges = [(u, tgt) for tgt, labs in ec[1].items()
+                 if labs and all(l[0] == 'variant' and l[1] in ('None', 'Break') for l in labs)]
+        if not edges:
+            continue
+        x, chain = ec[0]['pl']['l'], [ec[0].get('b', u)]
+        for _ in range(8):
+            d = du.single_def(x)
+            if d is None:
+                break
+            blk, idx, node = d
+            if idx == 't':
+                if not Q.callee_is(node, _OPTION_BRANCH) or Q.operand_local(node['a'][0]) is None \
+                        or not Q.is_plain(Q.operand_place(node['a'][0])):
+                    break
+            elif not (node['k'] == 'assign' and node['rv']['k'] == 'use' and Q.operand_place(node['rv']['o']) is not None
+                      and Q.is_plain(Q.operand_place(node['rv']['o']))):
+                break
+            chain.append(blk)
+            x = Q.operand_local(node['a'][0] if idx == 't' else node['rv']['o'])
+        defs = du.defs.get(x, [])
+        if len(defs) < 2 or not all(j != 't' and n['k'] == 'assign' and Q.is_plain(n['lhs']) and n['rv']['k'] == 'agg'
+                                    and n['rv'].get('adt') == 'core::option::Option' and n['rv'].get('variant') in ('Some', 'None')
+                                    for _, j, n in defs):
+            continue
+        def_blocks = {b for b, _, _ in defs}
+        none_blocks = {b for b, _, n in defs if n['rv']['variant'] == 'None'}
+        if not none_blocks or not none_blocks <= no_command:
+            continue
+        if u in def_blocks or u in body.reachable(start, removed=def_blocks):
+            continue            # the tested value may have been assigned before the signal was taken
+        if any(u in body.reachable(rb, removed={c}) for rb in def_blocks for c in set(chain) - {u, rb}):
+            continue            # a link of the copy chain can be skipped: the test may read a stale copy
+        out.update(edges)
+    return out
+
+
 def _take_then_run(cx, F, body, fn):
     """The K-PASS clause of R13 on one body that calls TrapSet::take_*. Returns the number of take sites examined."""
     du = Q.DefUse(body)
@@ -1276,7 +1332,9 @@ def _take_then_run(cx, F, body, fn):
                              'flag is cleared and the action never runs', loc=body.loc(t))
                 d = b
             through.add(d)
-        p = Q.must_pass(body, [tt['to']], through | no_command, goal_blocks=set(body.return_blocks()) | take_blocks, removed_edges=absent)
+        helper_none = _no_command_none_edges(F, body, du, tt['to'], no_command) if getattr(body, 'inlined_from', None) else set()
+        p = Q.must_pass(body, [tt['to']], through | no_command, goal_blocks=set(body.return_blocks()) | take_blocks,
+                        removed_edges=absent | helper_none)
         cx.site('%s: %s at %s; the taken action is run at %s before the next take / return: %s'
                 % (body.fn, pp.callee(tt).split('::')[-1], body.loc(tt), shown or 'nowhere', p is None))
         if p is not None:
